@@ -63,6 +63,7 @@ partial def parseE : List String → Option (Expr × List String)
   | "pos" :: rest => some (.position, rest)
   | "last" :: rest => some (.last, rest)
   | "n" :: k :: rest => (nat? k).map fun k => (.num k, rest)
+  | "lit" :: ng :: k :: rest => (nat? k).map fun k => (.lit (ng == "1") k, rest)
   | "p" :: rest => bin .pred rest
   | "sl" :: rest => bin .slash rest
   | "ds" :: rest => bin .dslash rest
@@ -140,6 +141,7 @@ def showVal : Val → String
   | .nodes l => "N" ++ ",".intercalate (l.map toString)
   | .bool b => if b then "B1" else "B0"
   | .num k => s!"#{k}"
+  | .dec ng k => s!"#{if ng then "-" else ""}{k}/10"
   | .err => "ERR"
 
 def parseMode : String → Option Mode
@@ -179,7 +181,7 @@ def answerExpr (line : String) (m : Mode) (a : Arr) (e : Expr) : String :=
     | some r => decide (r.flatten = a) && decide (r.mode = m)
     | none => false
   let tyS := match ty e with
-    | some .path => "path" | some .num => "num" | some .bool => "bool" | none => "none"
+    | some .path => "path" | some .num => "num" | some .bool => "bool" | some .dec => "dec" | none => "none"
   let cs := field fs "C"
   let ctxs : List Nat := if cs == "*" then List.range a.length else
     (cs.splitOn ",").filterMap nat?
@@ -191,7 +193,7 @@ def answerExpr (line : String) (m : Mode) (a : Arr) (e : Expr) : String :=
   let outs := ctxs.map fun c =>
     let f : Focus := ⟨c, p0, s0⟩
     -- the state-threading evaluator: value and the state the caller's context is left in
-    let rs := evalS (fun _ c => c) m a e ⟨c, ax0, p0, s0⟩
+    let rs := evalS m a e ⟨c, ax0, p0, s0⟩
     let mv := if ax0.isSome then rs.1 else eval m a e f
     let sv := Spec.sem m a e f
     let k := (if safeG (fun ax t _ n => !trigF01b m a ax t n) m a e f then 0 else 1) +
